@@ -177,6 +177,7 @@ var (
 
 const (
 	siteCur        = "snapshot.go:currentSnapshot#1"
+	sitePinPrefix  = "snapshot.go:currentSnapshot#"
 	siteSnapDecRef = "snapshot.go:decRef#1"
 	siteIntroPub   = "introducer.go:replaceSnapshot#1"
 	siteWriterSend = "tstable.go:mustAddMemPart#2"
@@ -796,7 +797,9 @@ func scenario(e *simcore.Env, tp *simcore.Tape, g engine) {
 		}
 		switch actorRank(actor) {
 		case 0:
-			if site == siteCur || site == siteSnapDecRef {
+			// every preemption point inside currentSnapshot (the unchanged tree has one, in front of the lock; the
+			// after-unlock gates of tools/gaterw add one wherever a version of it leaves the lock before it is done)
+			if strings.HasPrefix(site, sitePinPrefix) || site == siteSnapDecRef {
 				return true
 			}
 			if holdPull {
@@ -1258,8 +1261,11 @@ func scenario(e *simcore.Env, tp *simcore.Tape, g engine) {
 				q := s.queryByName(p.Actor)
 				switch {
 				case q == nil:
-				case p.Site == siteCur && q.full && !q.pinUnknown:
+				case strings.HasPrefix(p.Site, sitePinPrefix) && q.full && !q.pinUnknown:
 					s.pending = &pendingPin{q: q, before: s.views, journalAt: simos.Len()}
+					if p.Site != siteCur {
+						e.Probe("reach.query_parked_inside_pin")
+					}
 				case p.Site == siteSnapDecRef && q.full && !q.pinUnknown:
 					k := -1
 					for i := range q.pins {
